@@ -90,7 +90,7 @@ Definition ret_eqb (a b : ret) : bool :=
 
 (* how much longer than the nominal delay the observed gap between the
    failing Accept and the next Accept call may be (scheduling, timer) *)
-Definition delay_slack : N := 400.
+Definition delay_slack : N := 3000.
 
 Definition obs_agree (m : obs) (o : oobs) : bool :=
   match m, o with
